@@ -113,6 +113,9 @@ def run(rep, tier):
     rep.rule("R5.5", "no thread waits for a ring token while holding the reader mutex; no worker evaluates while holding the reader mutex")
     rep.rule("R5.6", "who-may-call: NextFrame on the shared reader only from ProcessData/Run; MergeWorker only from "
                      "Worker::Run/Run; ProcessData only from Worker::Run; the shared members are touched only by CsgApplication itself")
+    rep.rule("R5.10", "the frame budget counts the first frame of interest, which worker 0 holds from before the threads start: in unordered mode a worker other than worker 0 "
+                      "that finds exactly one budgeted frame left while is_first_frame_ is still set takes no frame (no read, no decrement, returns false), so that the set of "
+                      "processed frames is the first K frames of interest under every schedule")
     rep.rule("R5.8", "Mutex::Lock/Unlock and Thread::Start/WaitDone wrap the pthread primitive of the same meaning on their own object")
     units = [front.repo("csg/src/libcsg/csgapplication.cc"), front.repo("tools/src/libtools/mutex.cc"),
              front.repo("tools/src/libtools/thread.cc")]
@@ -341,6 +344,8 @@ def app_oracle(leaf):
             a_, b_ = str(leaf[1]), str(leaf[2])
             if {a_, b_} == {"nframes_", "0"}:
                 return ("NF0", leaf[0] == "==")
+            if {a_, b_} == {"nframes_", "1"}:
+                return ("NF1", leaf[0] == "==")
             if (a_.startswith("getId(") and b_ == "0") or (b_.startswith("getId(") and a_ == "0"):
                 return ("ID0", leaf[0] == "==")
         return None
@@ -377,22 +382,42 @@ def op_of(e):
     return e["kind"]
 
 
+def sc_of(A):
+    return ", ".join("%s=%d" % (k_, v_) for k_, v_ in A.items())
+
+
 def check_processdata_protocol(rep, F, pd):
     import itertools
     same = lambda q, g_: bool(g_.j.get("internal")) and g_.file == pd.file
     fo = Fold(pd, inline=same, record_calls=LOCK_RX).run()
     rel = lambda e: (e["kind"] == "call" and re.search(LOCK_RX, e["callee"])) or (e["kind"] == "store" and e["target"] in ("is_first_frame_", "nframes_")) or e["kind"] == "return"
-    names = ["SY", "NF0", "FF", "ID0", "NX", "DM"]
+    names = ["SY", "NF0", "NF1", "FF", "ID0", "NX", "DM"]
     n_sc = 0
+    n_reserved = 0
     bad = {}
 
     def fail(key, msg, e=None):
         bad.setdefault(key, (msg, e))
     for vals in itertools.product((True, False), repeat=len(names)):
         A = dict(zip(names, vals))
+        if A["NF0"] and A["NF1"]:
+            continue                                  # the budget is one number
+        # one unit of the budget left while the master has not yet picked up the frame it read before the threads started, seen by another worker
+        reserved = A["NF1"] and A["FF"] and not A["ID0"]
+        if reserved and A["SY"]:
+            continue                                  # not reachable in ordered mode: worker 0 holds the first In token
         tr = scenario_trace(fo, A, app_oracle, rel)
         ops = [op_of(e) for e in tr]
         n_sc += 1
+        if reserved:
+            n_reserved += 1
+            took = [o for o in ops if o in ("NextFrame", "store:nframes_", "EvalConfiguration")]
+            if took:
+                fail("unordered|budget-reserved-for-preloaded-frame", "unordered mode, path [%s]: a worker other than worker 0 takes the last frame of the budget (%s) while worker 0 still holds the first "
+                     "frame of interest, read before the threads were started; worker 0 then finds the budget used up and drops that frame, so with --nframes K the frames 2..K+1 "
+                     "are processed instead of 1..K whenever the other workers are scheduled first" % (sc_of(A), took), [e for e, o in zip(tr, ops) if o in took][0])
+                continue
+            A = dict(A, NF0=True)                     # for the remaining obligations of this path: no frame may be taken
         tag = "ordered" if A["SY"] else "unordered"
         sc = ", ".join("%s=%d" % (k_, v_) for k_, v_ in A.items())
         unk = [o for o in ops if o.startswith("unknown-mutex")]
@@ -463,12 +488,13 @@ def check_processdata_protocol(rep, F, pd):
         if bool(ev_) != got_frame or len(ev_) > 1:
             fail("eval-once", "on path [%s] EvalConfiguration is called %d time(s), required %d" % (sc, len(ev_), int(got_frame)))
     rep.floor("R5.2", n_sc, 64, "ProcessData scenarios (SY, NF0, FF, ID0, NX, DM)")
-    rules = {"reader": "R5.2", "ring": "R5.2", "ring-wait-without-reader": "R5.5", "nextframe-under-reader": "R5.1", "read-between-await-and-pass": "R5.2",
+    rep.floor("R5.10", n_reserved, 4, "scenarios with one budgeted frame left and the preloaded frame not yet picked up")
+    rules = {"budget-reserved-for-preloaded-frame": "R5.10", "reader": "R5.2", "ring": "R5.2", "ring-wait-without-reader": "R5.5", "nextframe-under-reader": "R5.1", "read-between-await-and-pass": "R5.2",
              "bookkeeping-under-reader": "R5.1", "bookkeeping-in-window": "R5.2", "eval-outside-locks": "R5.5", "first-frame-skip-guard": "R5.9",
              "first-frame-cleared-by-worker0": "R5.9", "frame-budget": "R5.2", "result": "R5.2", "eval-once": "R5.2"}
     keys = ["ordered|reader", "unordered|reader", "ordered|ring", "unordered|ring", "ordered|ring-wait-without-reader", "ordered|nextframe-under-reader", "unordered|nextframe-under-reader",
             "ordered|read-between-await-and-pass", "ordered|bookkeeping-under-reader", "unordered|bookkeeping-under-reader", "ordered|bookkeeping-in-window",
-            "ordered|eval-outside-locks", "unordered|eval-outside-locks", "first-frame-skip-guard", "first-frame-cleared-by-worker0", "frame-budget", "result", "eval-once"]
+            "ordered|eval-outside-locks", "unordered|eval-outside-locks", "unordered|budget-reserved-for-preloaded-frame", "first-frame-skip-guard", "first-frame-cleared-by-worker0", "frame-budget", "result", "eval-once"]
     for key in keys:
         rid = rules[key.split("|")[-1]]
         if key in bad:
